@@ -37,7 +37,7 @@ func init() {
 		Explanation: "Decides interface-level and sentinel-level agreement between storage backends, not behavioural equality: (storer-coverage) memory.Storage, filesystem.Storage and the transactional storage satisfy storage.Storer, and the optional " +
 			"interfaces each satisfies are recorded and compared with the frozen table; (missing-data-sentinel) for each backend the lookup methods can return the agreed sentinel (ErrObjectNotFound for EncodedObject/HasEncodedObject/EncodedObjectSize, " +
 			"ErrReferenceNotFound for Reference) somewhere in their static call closure; (loose-miss-falls-back) DotGit.Ref never returns the error of reading the loose file: every failed loose read is answered by packedRef, whose miss is the sentinel; (cas-on-missing-refused) with an old value given, a compare-and-set on a reference that is not stored cannot succeed in the memory storage " +
-			"(three-valued search under 'old != nil, looked-up value nil'), as the filesystem compare answers packedRef's ErrReferenceNotFound. Not decided: equality of results over call sequences (memory.CheckAndSetReference, for one, differs on a missing reference).",
+			"(three-valued search under 'old != nil, looked-up value nil'), as the filesystem compare answers packedRef's ErrReferenceNotFound; (rewrite-truncates) every billy OpenFile for writing in the filesystem storage that can meet an existing file carries O_TRUNC, O_APPEND or O_EXCL, or the function truncates explicitly — the memory backend replaces a list, a file rewritten without truncation keeps the tail of the old one (shallow list, config). Not decided: equality of results over call sequences (memory.CheckAndSetReference, for one, differs on a missing reference).",
 		Assumptions: []string{},
 		Run:         runC17,
 	})
@@ -55,7 +55,7 @@ func init() {
 		ID: "C01",
 		Explanation: "Decides agreement of the three places that produce the loose-object header and of the file-name split, not digest equality: (object-header) plumbing.writeHeader (ObjectHasher), plumbing.Hasher.Reset and objfile.(*Writer).writeHeader each " +
 			"write type bytes, one space, the size in base 10, one NUL, in that order; objfile.(*Reader) parses with ParseObjectType and base-10 ParseInt; (object-id-source) the loose object is stored under the hash of the writer that wrote the bytes, " +
-			"and writer (ObjectWriter.save) and reader (DotGit.objectPath) split the hex name at the same index 2; (sha1-implementation) see C05. Not decided: byte equality of digests and zlib streams with git.",
+			"and writer (ObjectWriter.save) and reader (DotGit.objectPath) split the hex name at the same index 2; (sha1-implementation) see C05; (buffer-not-kept-past-return) in the packages that hash and store objects no function that is handed a []byte starts a goroutine with it unless every path from the go statement to a return passes a channel receive or a Wait, and no Write method stores the caller's slice — a hasher fed asynchronously computes the ID over bytes the caller has already replaced. Not decided: byte equality of digests and zlib streams with git.",
 		Assumptions: []string{"compress/zlib (or the registered provider) interoperates with git"},
 		Run:         runC01,
 	})
@@ -234,6 +234,9 @@ func runC48(c *Ctx) {
 
 func runC17(c *Ctx) {
 	p := c.P
+	// the filesystem backend replaces what the memory backend replaces: a whole-file writer starts from an empty file
+	RewriteTruncates(c, "rewrite-truncates", dotgitShort, "storage/filesystem")
+	c.Floor("rewrite-truncates", 3)
 	// loose-miss-falls-back: in DotGit.Ref whatever goes wrong reading the loose file (absent, a directory, empty after a
 	// refused update) the answer comes from packed-refs, whose miss is the ErrReferenceNotFound sentinel the other
 	// backends return: the loose read's own error never reaches the caller
@@ -707,6 +710,8 @@ func runC07(c *Ctx) {
 
 func runC01(c *Ctx) {
 	PackagesStateFree(c, "codec-state-free", "plumbing/format/objfile", "plumbing")
+	NoGoroutineKeepsCallerBuffer(c, "buffer-not-kept-past-return", "plumbing/format/objfile", "plumbing", "plumbing/hash", dotgitShort, "storage/filesystem", "storage/memory", "utils/ioutil", "utils/sync")
+	c.Floor("buffer-not-kept-past-return", 1)
 	const r1 = "object-header"
 	// the three header emitters: ordered sequence of what is written
 	type emitter struct{ fn string }
